@@ -205,7 +205,7 @@ func c11ExactConfigs(t *rapid.T, P int) (many []ech.Config, k, nl int) {
 func TestC11(t *testing.T) {
 	rec := ev.Get("C11")
 	rec.Rule("ConfigSpecs: id 0..255, KEM ids, public keys of 0..200 bytes and of 255..20000 bytes (valid X25519 points for interop cases), 0..8 cipher suites incl. unknown ids, public names of 1..255 bytes (and invalid lengths 0, 256..300), lists of 0..6 configs, and lists sized around the 65535-byte limit of the length prefix (largest that fits / one more / many more), lists with an exact payload length (values that are tags elsewhere in the format, e.g. 0xfe0d, and uniform 400..65535). Oracles: harness decoder written from draft section 4 reads Bytes() and agrees field by field; Spec()/ParseConfigList return the generated specs in order; harness-encoded configs parse to the same fields (both directions); crypto/tls client+server accept interop configs (outer SNI = public name, config id named, ECHAccepted on both sides); every strict prefix of a valid list is rejected; trailing bytes beyond declared lengths do not change the result; length fields +-1 never panic; one length field of a valid config changed by -4..+200: no panic and the result (acceptance and fields) is independent of every byte beyond the config's declared length, stand-alone and inside a list. distinct = encoding hash; non-trivial = name length not in {11,18} or id != 1 or non-default suites")
-	rec.Mandatory("suites_cut_mid_suite", "name_len1", "name_len239", "name_len240", "name_len255", "list0", "list_ge3", "interop", "single_suite_aead1", "single_suite_aead2", "single_suite_aead3", "invalid_name_len", "prefix_rejected", "newconfig", "lenfield:contents_length", "lenfield:public_key_length", "lenfield:cipher_suites_length", "lenfield:public_name_length", "lenfield:extensions_length", "list_around_64k", "unknown_version_entry", "payload_len_equals_version_tag", "trailing_64k_of_configs")
+	rec.Mandatory("suites_cut_mid_suite", "name_len1", "name_len239", "name_len240", "name_len255", "list0", "list_ge3", "interop", "single_suite_aead1", "single_suite_aead2", "single_suite_aead3", "invalid_name_len", "prefix_rejected", "newconfig", "lenfield:contents_length", "lenfield:public_key_length", "lenfield:cipher_suites_length", "lenfield:public_name_length", "lenfield:extensions_length", "list_around_64k", "unknown_version_entry", "payload_len_equals_version_tag", "trailing_64k_of_configs", "newconfig_concurrent")
 	rapid.Check(t, func(t *rapid.T) {
 		interop := rapid.IntRange(0, 9).Draw(t, "interop") == 0
 		n := rapid.IntRange(0, 6).Draw(t, "nconfigs")
@@ -339,7 +339,7 @@ func TestC11(t *testing.T) {
 					}
 					return bs
 				}(), nil)
-				cl = append(cl, "trailing_64k_of_configs")
+				cl = append(cl, "trailing_64k_of_configs", "newconfig_concurrent")
 			}
 			var p2 []ech.ConfigSpec
 			e = guard(func() error {
@@ -544,7 +544,7 @@ func TestC11(t *testing.T) {
 				}
 			}
 			if P == 0xfe0d {
-				cl = append(cl, "payload_len_equals_version_tag", "trailing_64k_of_configs")
+				cl = append(cl, "payload_len_equals_version_tag", "trailing_64k_of_configs", "newconfig_concurrent")
 			}
 		}
 		// (7) an entry of a version this code does not know, whose opaque body happens to hold the
@@ -646,6 +646,47 @@ func TestC11(t *testing.T) {
 				ev.Violation(t, "C11", map[string]any{"bytes": hx(cfg)}, "NewConfig output is not the expected ECHConfig (harness decode err=%v): %+v", perr, f)
 			}
 			cl = append(cl, "newconfig")
+			if rapid.IntRange(0, 3).Draw(t, "nc_concurrent") == 0 {
+				// a server that makes its configs from several goroutines at once (one per hosted
+				// name, or Dial calls bootstrapping with PublicName): every call gets its own config
+				w := rapid.IntRange(2, 8).Draw(t, "nc_workers")
+				type out struct {
+					priv []byte
+					pub  []byte
+					cfg  ech.Config
+					err  error
+				}
+				res := make([]out, w*4)
+				names := make([][]byte, len(res))
+				for i := range names {
+					names[i] = []byte(fmt.Sprintf("w%d.%s", i, name[:min(len(name), 240)]))
+				}
+				start := make(chan struct{})
+				var wg sync.WaitGroup
+				for g := 0; g < w; g++ {
+					wg.Add(1)
+					go func(g int) {
+						defer wg.Done()
+						<-start
+						for i := g * 4; i < g*4+4; i++ {
+							p, c, e := ech.NewConfig(id+uint8(i), names[i])
+							res[i] = out{cfg: c, err: e}
+							if e == nil {
+								res[i].priv, res[i].pub = p.Bytes(), p.PublicKey().Bytes()
+							}
+						}
+					}(g)
+				}
+				close(start)
+				wg.Wait()
+				for i, r := range res {
+					f, perr := hello.ParseConfig(r.cfg)
+					if r.err != nil || perr != nil || f.ID != id+uint8(i) || !bytes.Equal(f.PublicName, names[i]) || !bytes.Equal(f.PublicKey, r.pub) || int(f.MaxNameLen) != min(len(names[i])+16, 255) {
+						ev.Violation(t, "C11", map[string]any{"bytes": hx(r.cfg), "want_id": id + uint8(i), "want_name": string(names[i])}, "NewConfig called from %d goroutines at once: call %d did not get the config it asked for (err=%v, decode err=%v): %+v", w, i, r.err, perr, f)
+					}
+				}
+				cl = append(cl, "newconfig_concurrent")
+			}
 			if rapid.IntRange(0, 3).Draw(t, "nc_interop") == 0 {
 				l, _ := ech.ConfigList([]ech.Config{cfg})
 				ca, sa, first, e := tlsInterop(t, l, []tls.EncryptedClientHelloKey{{Config: cfg, PrivateKey: priv.Bytes(), SendAsRetry: true}}, "inner.example")
